@@ -14,6 +14,8 @@ CONSTANTS
   HVals = {0, 3, 4, 8}
   HMod = 840
   MaxSched = 2
+  FaultKinds = {"sel", "root", "cp", "selerr", "rooterr", "cperr"}
+  Deviation = "none"
   MaxFired = 2
   ScenLen = 9
   SetupLen = 2
